@@ -5,6 +5,7 @@ import GraphiqModel.Proofs.StabTableau
 import GraphiqModel.Proofs.Solver
 import GraphiqModel.Proofs.HeightEntropy
 import GraphiqModel.Proofs.HeightGraph
+import GraphiqModel.Proofs.EchelonCheck
 namespace Graphiq.C03
 open Graphiq Graphiq.PRow Graphiq.STab Graphiq.Tab
 
@@ -71,6 +72,12 @@ theorem rref_keeps_group (t t' : STab) (brs : List String) (hg : t.Good) (h : t.
 theorem rref_echelon (t t' : STab) (brs : List String) (h : t.rref = .ok (t', brs)) :
     (∃ piv, Echelon t' piv) ∨ (0 < t'.n ∧ ∀ j, j < t'.n → t'.ptype (t'.n - 1) j = 0) :=
   rref_echelon_or_trivial t t' brs h
+
+/-- **every output of `rref` passes the executable echelon check** `STab.echelonB` (the predicate the driver evaluates on every
+    tableau returned by the real `rref`, harness/c03.py), unless its last row is the identity; and the check is exact:
+    `echelonB t = true ↔ ∃ piv, Echelon t piv` (`STab.echelonB_iff`) -/
+theorem rref_passes_echelon_check (t t' : STab) (brs : List String) (h : t.rref = .ok (t', brs)) :
+    t'.echelonB = true ∨ (0 < t'.n ∧ ∀ j, j < t'.n → t'.ptype (t'.n - 1) j = 0) := rref_echelonB t t' brs h
 
 /-- **echelon lemma** (every n): a product of generators of an echelon tableau that is trivial on the sites `0..k` uses only
     generators whose leading site is right of `k`; in particular (`echelon_indep`) the generators are independent -/
